@@ -123,7 +123,7 @@ impl Channel {
         decode: DecodeLevel,
         listener: Option<Box<dyn crate::client::Listener<crate::client::PortState>>>,
     ) -> (Self, ClientTask) {
-        let (tx, rx) = tokio::sync::mpsc::channel(max_queued_requests);
+        let (tx, rx) = tokio::sync::mpsc::channel(max_queued_requests.max(1)); // a queue of 0 would panic
         let task = crate::serial::client::SerialChannelTask::new(
             path,
             serial_settings,
